@@ -704,6 +704,9 @@ pub struct Script {
     pub pings: Vec<RespSpec>,
     pub gated: GateCfg,
     pub metrics_fail: bool,
+    /// When a check's scripted attempts are exhausted: repeat the last one forever instead of
+    /// answering "no update" (a server that never recovers).
+    pub repeat_last_attempt: bool,
 }
 
 // ---------------------------------------------------------------------------------------------
